@@ -94,6 +94,17 @@ PROPS["C15"] = {
     "assumptions": ["file creation (_open_writers) is exercised natively, not proved"],
 }
 
+PROPS["C05"] = {
+    "level": "other",
+    "text": "Proved: the pair-filter decision table of PairedEndFilter (any/both/first, one-sided predicates) against the statement, "
+            "that every paired writer call receives both mates of the same pair together (sinks, demultiplexers, redirecting filters), "
+            "that the paired wrapper gives each modifier only its own mate, that --pair-adapters picks the best same-rank pair "
+            "(loop invariant) and changes both mates or neither.  Bounded: file-level synchronisation on a command-line grid; the "
+            "'both is forced' rule of the command-line builder.",
+    "note": "Trusted: abstract modifier/predicate contracts (deterministic functions); writers write what they are given.",
+    "assumptions": ["pair identity is the identity of the two record objects handed to the step"],
+}
+
 _PENDING = "check not built yet in this revision (see DESIGN.md section 7 for the build order)"
 NOT_APPLICABLE = {
     "C12": "quantifies over fault sequences, crash points and schedules and contains a liveness clause; malformed-input detection "
